@@ -119,7 +119,10 @@ func Main(args []string) int {
 	}
 	dep := spec.DepDigest(views)
 	sort.Strings(viewStr)
-	if omitIf != "" && exists(filepath.Join(root, omitIf)) {
+	if omitIf != "" && omit != "" && !exists(filepath.Join(root, omitIf)) {
+		omit = "" // --omitif M --omit P: P is left out only while M is present
+	}
+	if omitIf != "" && omit == "" && exists(filepath.Join(root, omitIf)) {
 		// leave every declared output missing
 		for _, o := range t.AllOuts() {
 			_ = os.RemoveAll(spec.OutAbs(root, t.Pkg, o.Path))
